@@ -1,5 +1,5 @@
 import Vegeta.Model.Histogram
-namespace Vegeta.Driver.Hist
+namespace Vegeta.Driver.C12
 open Vegeta.Go Vegeta.Go.Proto Vegeta.Model.Histogram
 
 def showOutcome {α} (f : α → String) : Outcome α → String
@@ -39,4 +39,4 @@ def handle (op : String) (args : List String) : Option String :=
     | .panic => pure "panic"
   | _ => none
 
-end Vegeta.Driver.Hist
+end Vegeta.Driver.C12
